@@ -11,7 +11,7 @@ PLAN = dict(
           "something, an instant outside the window or an over-long lifetime. sign-sections (the command-line entry point, sub-check shared with C20): gen-bundle + gen-certurl + "
           "sign-bundle signatures-section with keys in SEC1 / PKCS#8 / encrypted PKCS#8 form, -date / -expire (flags omitted, numeric zone offsets, exactly 168h) and -miRecordSize 1..16384; the "
           "signed bundle must verify NOW with signature.NewVerifier for every covered exchange, leave uncovered ones unsigned, and be refused outside the window."),
-    assumptions=TRUSTED + ["collision resistance of SHA-256 and unforgeability of ECDSA", "an exchange covered by several signers gets its payload integrity from the first one (the second reuses the existing Digest)"],
+    assumptions=TRUSTED + ["a caller may offer a signer exchanges that it refuses (a second response for a URL already added, a response whose header cannot be encoded) and carry on with the others: refused offers are not part of what was signed", "collision resistance of SHA-256 and unforgeability of ECDSA", "an exchange covered by several signers gets its payload integrity from the first one (the second reuses the existing Digest)"],
     technique="rapid-generated signing histories and tampers; metamorphic oracle 'verified implies unchanged signed content, right authority, inside the window'; two-sided untampered invariant after every step",
     level_text=("History-based exploration: signer sequences, write/read and tampers are generated together; the invariant is evaluated after every signer, which is what "
                 "exposes authority-index and ordering errors that a single-signer example cannot."),
@@ -21,6 +21,6 @@ PLAN = dict(
         # the command-line entry point of the same signer (sign-bundle signatures-section), which is anchored in this property too; the sub-check lives in the CLI package c20
         dict(name="cli", pkg="c20", run="^(TestPropSignSections|TestFixedSignSections)$", checks=(25, 750), shards=(1, 16), timeout=(300, 3600)),
     ],
-    require=[("sign-sections", "covered"), ("sign-sections", "date-numeric-zone"), ("signatures", "signers-2"), ("signatures", "signers-3"), ("signatures", "via-file"), ("signatures", "verified"), ("signatures", "rejected-newverifier"),
+    require=[("sign-sections", "covered"), ("sign-sections", "date-numeric-zone"), ("signatures", "signers-2"), ("signatures", "decoy-refused:dup"), ("signatures", "decoy-refused:unencodable"), ("signatures", "signers-3"), ("signatures", "via-file"), ("signatures", "verified"), ("signatures", "rejected-newverifier"),
              ("signatures", "rejected-exchange"), ("signatures", "has-uncovered"), ("signatures", "tamper:authority"), ("signatures", "tamper:auth-samekey-cert"), ("signatures", "time:end+1")],
 )
